@@ -115,14 +115,18 @@ impl Register {
     fn write_atop(&mut self, entry: &[u8], owner: &RegisterSecretKey) -> Result<(), RegisterError> {
         let children: BTreeSet<_> = self.crdt_reg.read().iter().map(|(hash, _)| *hash).collect();
 
-        let (_hash, address, crdt_op) = self
-            .crdt_reg
+        // the entry becomes visible locally only once the signed register has accepted the op
+        let mut crdt_reg = self.crdt_reg.clone();
+        let (_hash, address, crdt_op) = crdt_reg
             .write(entry.to_vec(), &children)
             .map_err(RegisterError::Write)?;
 
         let op = RegisterOp::new(address, crdt_op, owner);
 
-        let _ = self.signed_reg.add_op(op);
+        self.signed_reg
+            .add_op(op)
+            .map_err(RegisterError::Write)?;
+        self.crdt_reg = crdt_reg;
 
         Ok(())
     }
